@@ -266,7 +266,12 @@ class JsonSchemaGenerator:
         t = f.output_type if self.output else f.type
         if not isinstance(t, type):
             if self.output:
-                t = t or f.type
+                if not t and f.property and getattr(f.property, "fget", None):
+                    # a property getter without a return annotation: what it returns is published as it is,
+                    # the type of the setter says nothing about it
+                    t = None
+                else:
+                    t = t or f.type
             else:
                 t = t or f.output_type
 
